@@ -27,7 +27,7 @@ def grid_fwd(dmax, bmax):
 
 
 @scenario('C20', 'forward', ['torchtt.nn.LinearLayerTT.__init__', 'torchtt.nn.LinearLayerTT.forward'],
-          quick=grid_fwd(2, 1), thorough=grid_fwd(4, 3), replay='nn_layer')
+          quick=grid_fwd(2, 1) + [dict(d=1, nb=2, init='He'), dict(d=2, nb=2, init='He'), dict(d=1, nb=3, init='He')], thorough=grid_fwd(4, 3), replay='nn_layer')
 def forward(ob, d, nb, init):
     ex = ob.ex
     n_in = H.sym_sizes(ex, 'in', d)
